@@ -76,6 +76,12 @@ func (l *LiquidOnChain) CreateOpeningTransaction(swapParams *swap.OpeningParams)
 	if err != nil {
 		return "", "", "", 0, 0, err
 	}
+	// The wallet decides where it puts change and fee outputs: locate the swap
+	// output in the transaction that was actually broadcast.
+	vout, err = l.VoutFromTxHex(txHex, redeemScript)
+	if err != nil {
+		return "", "", "", 0, 0, err
+	}
 	return txHex, blindedScriptAddr, txId, fee, vout, nil
 }
 
